@@ -133,7 +133,7 @@ Print Assumptions C11_source_pype_guard_is_model.
 
 (** * Non-vacuity: child fails after mutating; parent isolated, carries on, call resolves in parent *)
 Definition T (nm : string) (b : body) (inn : dict) : step :=
-  mkstep nm b (Some inn) None None None (VBool true) (VBool false) (VBool false) None (Some (1, 5)%Z).
+  mkstep nm b (Some inn) None None None (VBool true) (VBool false) (VBool false) None (Some (1, 5)%Z) None.
 Definition lib11 : library :=
   [("main", [("steps", Some [
        T "pypyr.steps.pype" BPype [(VStr "pype", VDict [(VStr "name", VStr "child");
